@@ -162,7 +162,7 @@ impl Handler {
     }
     fn do_list_alias_ret(&self, n: i32) -> Result<ListAlias, Error> {
         self.record(format!("listAliasRet(n={:?})", n));
-        Ok(ListAlias(self.ret().list))
+        Ok(ListAlias(self.ret().list.iter().map(|x| *x as f64 + 0.5).collect()))
     }
     fn do_opt_alias_ret(&self, n: i32) -> Result<OptStrAlias, Error> {
         self.record(format!("optAliasRet(n={:?})", n));
